@@ -159,6 +159,25 @@ def check_runtime(ctx, fx, cfg):
         sps = [t_ for _bi, t_ in mb.normal_calls() if t_.get("callee") in runtimes.SPAWN_FNS]
         ok_ = len(sps) == 1 and bool(roots(mb, sps[0]["args"][0])) and all(r_.kind == "arg" or r_.kind.startswith("call:") for r_ in roots(mb, sps[0]["args"][0])) and any(r_.kind == "arg" for r_ in roots(mb, sps[0]["args"][0]))
         ctx.require(ok_, "R18.5", "%s-uses-ambient-spawn@%s" % (mname, cfg), "%s must hand its future to the runtime's own spawn function exactly once (found %s)" % (mname, [t_["callee"] for t_ in sps]), fn=mf["def"], site=mf["loc"])
+    # R18.7 the crate's own `runtime::block_on` (what `#[hannibal::main]` expands to) drives the program on a runtime whose
+    # spawned tasks run *beside* the blocked-on future, as smol's global executor and async-std's do (there `block_on` is the
+    # runtime's own, re-exported): on tokio that is the multi-thread runtime — on a current-thread runtime a spawned actor only
+    # runs while the main future is suspended, so a program that waits for an actor without awaiting would behave differently
+    # (wherever under `runtime::` it is written: `runtime::tokio_rt::block_on` re-exported as `runtime::block_on`)
+    bos = [g for g in fx.d["fns"] if g["kind"] == "fn" and g["def"].startswith("runtime::") and g["def"].endswith("::block_on")]
+    bo = bos[0] if len(bos) == 1 else None
+    if cfg == "tokio":
+        if ctx.require(bo is not None, "R18.7", "block_on@" + cfg, "runtime::block_on not found"):
+            import inline
+            bb = inline.body(ctx, fx, bo, inline.not_public)
+            rt_calls = [(t_.get("callee") or "") for _b, t_ in bb.normal_calls() if (t_.get("callee") or "").startswith("tokio::runtime::")]
+            multi = [c for c in rt_calls if c.endswith("runtime::{impl#0}::new") or c.endswith("::new_multi_thread")]
+            single = [c for c in rt_calls if c.endswith("::new_current_thread") or "local" in c.split("::")[-1].lower() or "LocalSet" in c]
+            drives = [c for c in rt_calls if c.endswith("::block_on")]
+            ctx.require(bool(multi) and not single and len(drives) == 1, "R18.7", "block_on-multi-thread@" + cfg,
+                        "runtime::block_on must run its future on a multi-thread tokio runtime (spawned actors run beside it, as on smol / async-std): runtime calls %s" % [c.split("::", 2)[-1] for c in rt_calls], fn=bo["def"], site=bo["loc"], detail=rt_calls)
+    elif bo is not None:
+        ctx.viol("R18.7", "block_on@" + cfg, "a hand-written runtime::block_on for %s: which executor runs spawned tasks beside it must be confirmed" % cfg, fn=bo["def"], site=bo["loc"])
     # every runtime spawn in the crate: what happens to the handle
     for f, bi, t in graph.all_calls(fx, lambda t: t.get("callee") in runtimes.SPAWN_FNS):
         b = ctx.body(fx, f)
